@@ -218,9 +218,9 @@ func TestCheck(t *testing.T) {
 			"background compaction is kept off while C01-F1c (equal internal keys in one ingest buffer) is listed open, because every L0 compaction of a 2-3 key workload creates exactly that layout",
 		},
 	}
-	pbt.Add(s, &pbt.Spec[Case]{Name: "hist", Gen: gen, Run: run, Quick: 500, Thorough: 10000, Shards: 8, Nondet: true, Timeout: 15 * time.Minute})
+	pbt.Add(s, &pbt.Spec[Case]{Name: "hist", Gen: gen, Run: run, Quick: 400, Thorough: 6000, Shards: 8, Nondet: true, Timeout: 15 * time.Minute})
 	if pbt.Tier() == "thorough" {
-		pbt.Add(s, &pbt.Spec[RaceCase]{Name: "race", Run: runRace, Static: raceCases, Nondet: true})
+		pbt.Add(s, &pbt.Spec[RaceCase]{Name: "race", Gen: genRace, Run: runRace, Static: raceCases, Nondet: true})
 	}
 	s.Main(t)
 }
